@@ -336,8 +336,12 @@ def run(v):
     # (C) connection level: parity / first id on the wire of real endpoints, duplicate incoming ids rejected without
     # disturbing the live stream (hostile class 'duplicate_request': witness and probe must still be served)
     from . import conn, families
-    conn.check(v, 'C13', families.FAMILIES['C13'], also=('C08.stream_parity', 'C17.ids_restart_at_first_id', 'C12.probe_served',
+    scns_res = conn.check(v, 'C13', families.FAMILIES['C13'], also=('C08.stream_parity', 'C17.ids_restart_at_first_id', 'C12.probe_served',
                                                           'C01.all_delivered_at_quiescence', 'C01.deliver_is_next', 'C01.correlation'))
+    dups = sum(1 for sc in scns_res[0] for e in sc['events'] if e['ev'] == 'inject' and e['kind'] == 'duplicate_request')
+    v.coverage['duplicate_requests_injected'] = dups
+    if dups == 0:
+        raise common.Machinery('no request frame re-using an active id was injected in this run: the connection-level part of C13 checked nothing')
     v.setc('traces_validated_against_impl', v.coverage.get('spec_transitions_replayed', 0) + v.coverage.get('traces_validated_against_impl', 0))
     v.setc('exhaustive', True)
     v.setc('rule', 'every transition of the complete TLC state graph of StreamIds.tla (MaxId 7 and 15, both parities) '
